@@ -12,7 +12,7 @@ THEOREMS = [_P + t for t in (
     "C10_read_eq_merge_partial", "C10_witnesses_envelope", "C10_witness_store_keys")]
 HARNESS = ("hx_ops", {"HX_ENGINE": "c10"})
 DRIVER = "drv_ops"
-CASES = {"quick": 200, "thorough": 3000}
+CASES = {"quick": 120, "thorough": 3000}
 TECHNIQUE = ("Lean 4: (a) executable semantics of the runtime's normalizeData / readData over the evaluated artifacts (store, store-key "
              "functions transcribed from cache.ts, every reader node kind), in differential correspondence with the runtime's OWN functions "
              "sliced out of cache.ts / read.ts and run under node on the same artifacts, variables and generated conforming responses "
